@@ -299,7 +299,7 @@ func runC05(a *A) {
 					t := TermOf(ch, nil)
 					if t.Kind == "field" && t.Field == dc {
 						n++
-						if fname(fn) == consumer || inlinePartOf(fn, consumerFn) {
+						if fname(fn) == consumer || inlinePartOf(fn, consumerFn) || a.calledOnlyFrom(fn, consumerFn) {
 							a.Ok("recv(dataChan)@"+fname(fn), in.Pos(), "the single processing goroutine")
 						} else if L.Held(in)[key] == 'W' {
 							a.Ok("recv(dataChan)@"+fname(fn), in.Pos(), "receives with dataChanMux held exclusively (migration / discard at Stop): cannot overlap the consumer's receive")
@@ -315,6 +315,7 @@ func runC05(a *A) {
 		}
 	})
 	a.Rule("flow/fresh-channel-per-iteration", 1, func() { a.ruleFreshChannelPerIteration() })
+	a.Rule("whomay/compiled-info-not-steered-by-rows", 2, func() { a.ruleCompiledInfoReadOnly() })
 	a.Rule("whomay/evaluators-read-only", 5, func() { a.ruleEvaluatorsReadOnly() })
 	a.Rule("ownmap/no-retained-vm", 1, func() { a.ruleNoRetainedVM() })
 	a.Rule("locks/receive-under-lock", 2, func() { a.ruleReceiveUnderLock() })
@@ -674,5 +675,125 @@ func (a *A) ruleNoRetainedVM() int {
 	a.Check(len(bad) == 0, "module#no-retained-vm", token.NoPos,
 		fmt.Sprintf("none of the module's %d struct types and package variables holds an expr-lang vm.VM", n),
 		"an expr-lang vm.VM is kept in "+strings.Join(bad, ", ")+": the VM is the state of one evaluation, and these objects are shared by concurrent evaluations (all goroutines calling Emit/EmitSync, every Streamsql instance through the process-wide program cache) — their stacks get mixed and wrong values are returned silently")
+	return n
+}
+
+// ruleCompiledInfoReadOnly: the per-query compiled information (the values of Stream.compiledFieldInfo
+// and Stream.compiledExprInfo) is built before the stream starts and decides how every row is
+// projected. "The result for a row depends on that row alone" requires that no row can change it:
+// no field of these structs is both written and read by functions on the per-row path (a counter
+// that switches an evaluation strategy after some rows makes a row's value depend on its
+// predecessors). A field that is only written there (statistics) or only read there is fine.
+func (a *A) ruleCompiledInfoReadOnly() int {
+	S := a.Named("stream", "Stream")
+	var infoTypes []*types.Named
+	for _, fname := range []string{"compiledFieldInfo", "compiledExprInfo"} {
+		f := a.FieldOf(S, fname)
+		if m, ok := f.Type().Underlying().(*types.Map); ok {
+			t := m.Elem()
+			if p, ok := t.(*types.Pointer); ok {
+				t = p.Elem()
+			}
+			if nt, ok := t.(*types.Named); ok {
+				infoTypes = append(infoTypes, nt)
+			}
+		}
+	}
+	if len(infoTypes) == 0 {
+		a.anchorFail("the element types of Stream.compiledFieldInfo / compiledExprInfo were not found")
+	}
+	// the per-row path: everything reachable from the two entry points of a row
+	rowFns := map[*ssa.Function]bool{}
+	var work []*ssa.Function
+	for _, r := range []*ssa.Function{a.Method("stream", "DataProcessor", "processItem"), a.Method("stream", "Stream", "processDirectDataSync")} {
+		work = append(work, r)
+	}
+	for len(work) > 0 {
+		fn := work[len(work)-1]
+		work = work[:len(work)-1]
+		if rowFns[fn] || !a.fnInModule(fn) {
+			continue
+		}
+		rowFns[fn] = true
+		if node := a.CG().Nodes[fn]; node != nil {
+			for _, e := range node.Out {
+				if e.Callee != nil && e.Callee.Func != nil {
+					work = append(work, e.Callee.Func)
+				}
+			}
+		}
+		work = append(work, fn.AnonFuncs...)
+	}
+	isInfo := func(t types.Type) *types.Named {
+		t = derefT(t)
+		for _, it := range infoTypes {
+			if types.Identical(t, it) {
+				return it
+			}
+		}
+		return nil
+	}
+	n := 0
+	for _, it := range infoTypes {
+		st := it.Underlying().(*types.Struct)
+		written := map[int]token.Pos{}
+		read := map[int]token.Pos{}
+		var wfn = map[int]string{}
+		for fn := range rowFns {
+			allInstrs(fn, func(in ssa.Instruction) {
+				fa, ok := in.(*ssa.FieldAddr)
+				if !ok || isInfo(fa.X.Type()) != it {
+					return
+				}
+				if isFreshObject(fa) {
+					return
+				}
+				for _, r := range *fa.Referrers() {
+					switch x := r.(type) {
+					case *ssa.Store:
+						if x.Addr == ssa.Value(fa) {
+							written[fa.Field] = x.Pos()
+							wfn[fa.Field] = fname(fn)
+						}
+					case *ssa.UnOp:
+						if x.Op == token.MUL {
+							read[fa.Field] = x.Pos()
+						}
+					case ssa.CallInstruction:
+						if cal := x.Common().StaticCallee(); cal != nil && cal.Pkg != nil && cal.Pkg.Pkg.Path() == "sync/atomic" {
+							switch {
+							case strings.HasPrefix(cal.Name(), "Load"):
+								read[fa.Field] = x.Pos()
+							default:
+								written[fa.Field] = x.Pos()
+								wfn[fa.Field] = fname(fn)
+								if strings.HasPrefix(cal.Name(), "Add") || strings.HasPrefix(cal.Name(), "Swap") || strings.HasPrefix(cal.Name(), "CompareAndSwap") {
+									// the result may be used as a read as well
+									if v, isV := x.(ssa.Value); isV && v.Referrers() != nil && len(*v.Referrers()) > 0 {
+										read[fa.Field] = x.Pos()
+									}
+								}
+							}
+						}
+					}
+				}
+			})
+		}
+		var bad []string
+		pos := token.NoPos
+		for i := 0; i < st.NumFields(); i++ {
+			if w, ok := written[i]; ok {
+				if _, ok := read[i]; ok {
+					bad = append(bad, fmt.Sprintf("%s (written by %s)", st.Field(i).Name(), wfn[i]))
+					pos = w
+				}
+			}
+		}
+		sort.Strings(bad)
+		n++
+		a.Check(len(bad) == 0, "stream."+it.Obj().Name()+"#not-steered-by-rows", pos,
+			"no field of the compiled per-query information is both written and read on the per-row path",
+			"field(s) "+strings.Join(bad, ", ")+" of stream."+it.Obj().Name()+" are written and read while rows are processed: what one row leaves there decides how a later row is evaluated, so the value projected for a row depends on the rows before it")
+	}
 	return n
 }
